@@ -108,8 +108,34 @@ def getAttempt (idx : Nat) (j : Json) : Except String Attempt := do
     | .error _ => pure (Update.mk none none none none none)
   return ⟨⟨kind, idx⟩, u.apply⟩
 
+/-- a raw product on the wire: `{"t":"value","dict":b,"success":null|b,"what":n}` or
+    `{"t":"exc","sock":b,"conn":b,"api":b,"cto":b,"transport":b,"status":n,"what":n}` -/
+def getRaw (j : Json) : Except String Raw := do
+  let t ← j.getObjValAs? String "t"
+  let what ← j.getObjValAs? Nat "what"
+  match t with
+  | "value" =>
+    let d ← getBool j "dict"
+    let s ← getOptBool j "success"
+    return .value d s what
+  | "exc" =>
+    let f : Facts := ⟨← getBool j "sock", ← getBool j "conn", ← getBool j "api", ← getBool j "cto", ← getBool j "transport"⟩
+    let st ← j.getObjValAs? Nat "status"
+    return .exc f st what
+  | _ => throw s!"unknown raw product {t}"
+
 def handle (op : String) (a : Json) : Except String Json := do
   match op with
+  | "run_raw" =>
+    let p ← getParams a
+    let rj ← getArr a "raws"
+    let raws ← rj.mapM getRaw
+    let rs := raws.zipIdx
+    let outs := rawOutcomes rs
+    let r := retryRaw p rs
+    let tags := stepTags (cfg p) outs r.calls ++ (if r.calls == (cfg p).maxAttempts then ["at-last-attempt"] else [])
+    return ok (Json.mkObj [("res", resJson r.res), ("trace", arr (r.trace.map evJson)), ("calls", toJson r.calls),
+                           ("kinds", arr (outs.map (fun o => Json.str (kindName o.kind))))]) tags
   | "run" =>
     let p ← getParams a
     let outs ← getOuts a
